@@ -65,11 +65,41 @@ fn run(case: &str) -> String {
     let tmp = sb.path().join("tmp");
     std::fs::create_dir_all(&indir).unwrap();
     std::fs::create_dir_all(&tmp).unwrap();
-    let zpath = indir.join("arch.zip");
-    std::fs::write(&zpath, build_zip(&ms)).unwrap();
+    // optionally the archive is stored as a multi-volume archive (arch.zip.001, .002, ...) and named by its first volume
+    // in one of three ways: absolute, `./arch.zip.001` or the bare `arch.zip.001` (the latter two relative to the directory)
+    let vol: Option<(usize, String)> = parts.get(7).and_then(|v| v.strip_prefix("vol=")).and_then(|v| v.split_once(',')).map(|(n, f)| (n.parse().unwrap_or(2), f.trim().to_string()));
+    let zbytes = build_zip(&ms);
+    // adlt caches archive listings for a minute under the path *as given*: relative names must be unique per case
+    static NONCE: std::sync::atomic::AtomicUsize = std::sync::atomic::AtomicUsize::new(0);
+    let vname = format!("arch{}x{}.zip", std::process::id(), NONCE.fetch_add(1, std::sync::atomic::Ordering::SeqCst));
+    let zpath = match &vol {
+        None => {
+            let z = indir.join("arch.zip");
+            std::fs::write(&z, &zbytes).unwrap();
+            z
+        }
+        Some((n, _)) => {
+            let n = (*n).max(1);
+            let h = hash(&zbytes) as usize;
+            let mut cuts: Vec<usize> = (1..n).map(|k| (h / (k * 7 + 1) + k * 131) % (zbytes.len() + 1)).collect();
+            cuts.sort();
+            let mut prev = 0;
+            for (k, c) in cuts.iter().chain(std::iter::once(&zbytes.len())).enumerate() {
+                std::fs::write(indir.join(format!("{}.{:03}", vname, k + 1)), &zbytes[prev..*c]).unwrap();
+                prev = *c;
+            }
+            indir.join(format!("{}.001", vname))
+        }
+    };
     // something that exists next to (not inside) the future temporary directory: `<tmpdir>/../evil.dlt`
     std::fs::write(tmp.join("evil.dlt"), b"outside").unwrap();
-    let arg = if pattern.is_empty() { zpath.to_string_lossy().to_string() } else { format!("{}{}{}", zpath.to_string_lossy(), if bang { "!/" } else { "/" }, pattern) };
+    let zname = match &vol {
+        Some((_, f)) if f == "dot" => format!("./{}.001", vname),
+        Some((_, f)) if f == "bare" => format!("{}.001", vname),
+        _ => zpath.to_string_lossy().to_string(),
+    };
+    let relative = matches!(&vol, Some((_, f)) if f != "abs");
+    let arg = if pattern.is_empty() { zname.clone() } else { format!("{}{}{}", zname, if bang { "!/" } else { "/" }, pattern) };
     // the temporary directories of this thread's extraction go below sb/tmp (TMPDIR is process wide: serialise)
     static LOCK: std::sync::Mutex<()> = std::sync::Mutex::new(());
     let mut temp_dirs = vec![];
@@ -78,7 +108,14 @@ fn run(case: &str) -> String {
         let old = std::env::var_os("TMPDIR");
         std::env::set_var("TMPDIR", &tmp);
         let log = slog::Logger::root(slog::Discard, slog::o!());
+        let cwd = std::env::current_dir().ok();
+        if relative {
+            let _ = std::env::set_current_dir(&indir);
+        }
         let r = adlt::utils::unzip::extract_archives(arg.clone(), &mut temp_dirs, &Arc::new(AtomicBool::new(false)), &log);
+        if let (true, Some(c)) = (relative, &cwd) {
+            let _ = std::env::set_current_dir(c);
+        }
         match old {
             Some(v) => std::env::set_var("TMPDIR", v),
             None => std::env::remove_var("TMPDIR"),
@@ -131,7 +168,7 @@ fn run(case: &str) -> String {
     let expected_prefix = tdir.as_ref().and_then(|t| t.strip_prefix(sb.path()).ok().map(|x| x.to_string_lossy().to_string()));
     let escaped = all
         .iter()
-        .filter(|(p, _)| p != "in/arch.zip" && p != "tmp/evil.dlt" && !expected_prefix.as_ref().map(|e| p.starts_with(&format!("{}/", e))).unwrap_or(false))
+        .filter(|(p, _)| !p.starts_with("in/") && p != "tmp/evil.dlt" && !expected_prefix.as_ref().map(|e| p.starts_with(&format!("{}/", e))).unwrap_or(false))
         .count();
     if std::env::var("VERIF_ZIP_DEBUG").is_ok() {
         eprintln!("tdir={:?} prefix={:?} all={:?} res={:?}", tdir, expected_prefix, all.iter().map(|(p, _)| p.clone()).collect::<Vec<_>>(), res);
@@ -164,7 +201,9 @@ fn run(case: &str) -> String {
     format!("R:{}{} F:{} X:{}", rp.join("+"), second, fs.join("+"), escaped + outside)
 }
 
-const NAMES: [&str; 23] = [
+const NAMES: [&str; 28] = [
+    // names that stay inside but do not name a file (F4 of the audit), and other spellings of names listed below
+    "dir/sub/..", "b/.", "./a.dlt", "dir/../a.dlt", "dir/./b.dlt",
     "a.dlt", "b.dlt", "dir/b.dlt", "dir/sub/c.txt", "dir/sub/d.dlt", "../evil.dlt", "/abs.dlt", "dir/../x.dlt", "./e.dlt", "dir/../../out.dlt", "weird [1].dlt", "data", "UP.DLT", "dir/.hidden.dlt", "a b.dlt", "dir//f.dlt",
     "..", "/etc/hostname", "dir/sub/../../../esc.dlt", "c:evil.dlt", "dir\\g.dlt", "x/../../y.dlt", "\u{00e4}.dlt",
 ];
@@ -239,15 +278,22 @@ fn gen(rng: &mut Rng, tier: u32) -> String {
             }
         }
     }
+    // a sixth of the archives with more than one entry is stored in 1-3 volumes, named in one of three ways
+    let volfield = if listing != vec!["data".to_string()] && !pattern2.is_empty() == false && rng.chance(5) {
+        format!(" | vol={},{}", 1 + rng.below(3), rng.pick(&["abs", "dot", "bare"]))
+    } else {
+        String::new()
+    };
     format!(
-        "{} | {} | {} | {} | {} | {} | {}",
+        "{} | {} | {} | {} | {} | {} | {}{}",
         hex(pattern.as_bytes()),
         if bang { "!" } else { "/" },
         ms.iter().map(|m| format!("{},{},{}", hex(m.name.as_bytes()), if m.dir { "d" } else { "f" }, hex(&m.data))).collect::<Vec<_>>().join(";"),
         info.join(";"),
         listing.iter().map(|l| hex(l.as_bytes())).collect::<Vec<_>>().join(";"),
         tbl.join(" "),
-        hex(pattern2.as_bytes())
+        hex(pattern2.as_bytes()),
+        volfield
     )
 }
 
